@@ -549,8 +549,19 @@ func persistCoverage(w *World, r *Report, ro *Roles) {
 	}
 	// the persist loop exists: receives on the request channel and calls the save
 	loop := false
+	// functions started with `go` (a method run as the persist loop counts like a closure)
+	goTargets := map[*ssa.Function]bool{}
+	for _, g := range w.ModFuncs {
+		allInstrs(g, func(in ssa.Instruction) {
+			if gi, ok := in.(*ssa.Go); ok {
+				if f := gi.Call.StaticCallee(); f != nil {
+					goTargets[f] = true
+				}
+			}
+		})
+	}
 	for _, fn := range w.ModFuncs {
-		if fn.Parent() == nil {
+		if fn.Parent() == nil && !goTargets[fn] {
 			continue
 		}
 		recvs, saves := false, false
